@@ -25,7 +25,11 @@ package apd
 // value of the border between the two decimal digit counts (10^k).
 const digitsTableSize = 128
 
-var digitsLookupTable [digitsTableSize + 1]tableVal
+// The table is built by a variable initializer rather than by an init
+// function: the package-level constants of const.go are rounded while they are
+// initialized, which needs NumDigits, and variable initializers run before
+// every init function but in dependency order among themselves.
+var digitsLookupTable = makeDigitsLookupTable()
 
 type tableVal struct {
 	digits  int64
@@ -33,7 +37,8 @@ type tableVal struct {
 	nborder BigInt
 }
 
-func init() {
+func makeDigitsLookupTable() *[digitsTableSize + 1]tableVal {
+	var digitsLookupTable [digitsTableSize + 1]tableVal
 	curVal := NewBigInt(1)
 	curExp := new(BigInt)
 	for i := 1; i <= digitsTableSize; i++ {
@@ -49,6 +54,7 @@ func init() {
 		elem.border.Exp(&elem.border, curExp, nil)
 		elem.nborder.Neg(&elem.border)
 	}
+	return &digitsLookupTable
 }
 
 // NumDigits returns the number of decimal digits of d.Coeff.
@@ -111,12 +117,16 @@ func NumDigits(b *BigInt) int64 {
 // 10^3 inclusive.
 const powerTenTableSize = 128
 
-var pow10LookupTable [powerTenTableSize + 1]BigInt
+// Like digitsLookupTable, the table is built by a variable initializer so that
+// it is ready when the package-level constants are rounded.
+var pow10LookupTable = makePow10LookupTable()
 
-func init() {
+func makePow10LookupTable() *[powerTenTableSize + 1]BigInt {
+	var pow10LookupTable [powerTenTableSize + 1]BigInt
 	for i := int64(0); i <= powerTenTableSize; i++ {
 		setBigWithPow(&pow10LookupTable[i], i)
 	}
+	return &pow10LookupTable
 }
 
 func setBigWithPow(res *BigInt, pow int64) {
